@@ -201,7 +201,26 @@ def cli_stage(chk):
         why = "standard output %r instead of b'Q'" % out
     elif fout != b"Hex!\n":
         why = "file simout2 holds %r after the run instead of b'Hex!\\n'" % fout
-    chk.native.append({"stage": "hexsim executable (hexsim.cpp main) on a program writing to stream 512, echoing an input byte and exiting with 7: simout2, stdout, status", "ok": not why, "why": why})
+    if not why:
+        # the same run with -t: tracing only adds text, the step still happens (status, stream file and the echoed byte at
+        # the end of the SVC's trace line)
+        try:
+            os.remove(os.path.join(d, "simout2"))
+        except OSError:
+            pass
+        try:
+            r = subprocess.run([exe, "p.bin", "-t"], cwd=d, input=b"Q", capture_output=True, timeout=60)
+            try:
+                fout = open(os.path.join(d, "simout2"), "rb").read()
+            except OSError:
+                fout = None
+            if r.returncode != 7:
+                why = "with -t: process status %s instead of 7 (%s)" % (r.returncode, r.stderr[-120:].decode("latin-1"))
+            elif fout != b"Hex!\n":
+                why = "with -t: file simout2 holds %r instead of b'Hex!\\n'" % fout
+        except subprocess.TimeoutExpired:
+            why = "with -t: the run does not end"
+    chk.native.append({"stage": "hexsim executable (hexsim.cpp main) on a program writing to stream 512, echoing an input byte and exiting with 7: simout2, stdout, status; the same with -t", "ok": not why, "why": why})
     if why:
         p = chk.replay_path("native-cli")
         json.dump({"property": PID, "obligation": "hexsim executable: stream files, standard output and status of a run", "what": why,
